@@ -43,3 +43,14 @@ pub fn fmt_transact_code_error(e: core::num::ParseIntError) -> (r: String)
 pub fn opt_parse_transact_code(v: Option<(usize, &str)>) -> (r: Option<(usize, Result<u32, core::num::ParseIntError>)>)
     ensures (r is Some <==> v is Some), v is Some ==> (r->0).0 == (v->0).0
 { v.map(|(ip1, i)| (ip1, i.parse())) }
+// `v.unwrap_or_default().into_iter().collect()` of the annotation action: the (name, value) pairs as a map, a later pair
+// with the same name replacing an earlier one (HashMap's FromIterator inserts in order)
+pub open spec fn pairs_map(v: Seq<(String, Option<String>)>) -> Map<String, Option<String>>
+    decreases v.len()
+{
+    if v.len() == 0 { Map::<String, Option<String>>::empty() } else { pairs_map(v.drop_last()).insert(v.last().0, v.last().1) }
+}
+#[verifier::external_body]
+pub fn opt_pairs_to_map(v: Option<Vec<(String, Option<String>)>>) -> (r: HashMap<String, Option<String>>)
+    ensures r@ == (match v { Some(x) => pairs_map(x@), None => Map::<String, Option<String>>::empty() })
+{ v.unwrap_or_default().into_iter().collect() }
